@@ -6,3 +6,5 @@ mod stubs;
 mod c19;
 #[cfg(kani)]
 mod c18;
+#[cfg(kani)]
+mod c09;
